@@ -10,6 +10,9 @@ CLAIMED = {
  'C10': dict(cat='model_checking', tech='bounded model checking (CBMC/SAT) of the real StdBackend predicates translated from clang IR; the status code is one symbolic 32-bit int',
    text='All seven StdBackend<Impl> classification predicates and SolveCode() are decided for every 32-bit status code at once (no bound on the code) against the documented ranges; virtual dispatch goes through the real vtable of a harness Impl.',
    note='Object image: only vptr and status_.first are initialised (CBMC pointer checks show nothing else is read). Message composition in ReportSolution2AMPL (objective fragment) follows IsProblemSolvedOrFeasible by inspection; not encoded. Text of the -! table outside.', ref='DESIGN.md 3 C10'),
+ 'C15': dict(cat='model_checking', tech='bounded model checking (CBMC/SAT) of the real SignalHandler code translated from clang IR, with the signal delivery points as symbolic scheduler choices',
+   text='The real constructor, SetHandler, HandleSigInt and destructor of src/solver.cc are executed symbolically; before every store to the shared static members (yield points inserted from the IR) and between driver steps the solver chooses whether one of up to 3 signals (SIGINT/SIGTERM) is delivered. All schedules within that bound are decided at once; counterexample schedules are replayed on the real g++ build through the MP_VERIF_SIGPOINT hooks.',
+   note='Bound: <=3 signals, <=2 registrations, no nested delivery inside the handler; delivery only at instruction boundaries preceding an access to shared state (others are equivalent). libc signal/write/_exit/getenv are contract stubs; fmt::format (message text) is a stub. The dangling-but-unread message pointer after destruction is reported as unconfirmed UB (pointer arithmetic on a freed object with size 0).', ref='DESIGN.md 3 C15'),
 }
 NA = {
  'C09': 'whole-process driver behaviour (exit status, stderr, .sol file on disk) over an instantiated backend: no bounded unit states it and neither CBMC nor the IR engines can carry main->BackendApp::Run with filesystem effects; its encodable ingredients are decided under C02, C10, C11, C12',
@@ -26,7 +29,7 @@ for p in props:
           'level_note': c['note'], 'technique': c['tech']})
 na = [{'property_id': p['id'], 'reason': NA.get(p['id'], 'check not built yet (work in progress; see DESIGN.md section 7 for the order of work)')} for p in props if p['id'] not in CLAIMED]
 m = {'version': 1, 'setup_cmd': 'make -C /verif/tools',
- 'hooks': {'guard': 'AMPL_MP_VERIF', 'enable': '-DAMPL_MP_VERIF (only replay builds of C15 use it)', 'baseline_off_cmd': '/verif/tools/baseline.sh', 'source_commits': [], 'add_only': True},
+ 'hooks': {'guard': 'AMPL_MP_VERIF', 'enable': '-DAMPL_MP_VERIF (only replay builds of C15 use it)', 'baseline_off_cmd': '/verif/tools/baseline.sh', 'source_commits': ['1b7d61f', 'e3ae2b8'], 'add_only': True},
  'engines': [{'name': 'll2c+cbmc', 'path': '/verif/tools', 'serves_properties': sorted(CLAIMED), 'kind_free_text': 'clang++-14 IR of harness TUs instantiating the real mp templates -> own IR->C translator (ll2c) -> CBMC 6.11 bounded model checking; counterexamples replayed on the real g++/ASan/UBSan build'}],
  'checks': checks, 'not_applicable': na,
  'notes': 'Solver-based checking of the real code; see DESIGN.md. known_findings.txt lists repaired defects (fix: commits in /repo) and recorded findings.'}
